@@ -188,6 +188,28 @@ def r5_closures_over_loop_locals(ctx):
         ctx.ob("C01.R5", f"{GEN}::_letfn_to_py_ast::letfn functions are not captured by value", GEN, lf.lineno, bool(reg) and not bad_kind,
                "" if reg and not bad_kind else f"letfn* registers its functions as {bad_kind or '?'}, a kind the loop-closure factory takes by value: a function that refers to a sibling assigned after it is handed an unbound name",
                witness="(loop [i 0 acc []] (letfn [(a [] (b)) (b [] i)] (if (< i 3) (recur (inc i) (conj acc a)) acc))) => NameError: name 'b_N' is not defined")
+        # ... and what it leaves by reference must not be shared between iterations either: the
+        # letfn functions reach each other through variables, which in a loop body have to be the
+        # variables of a scope that exists once per iteration -- under `ctx.is_in_loop` the
+        # binding statements are moved into a function definition, and the names are assigned
+        # from a call of it
+        stmts_var = next((P.un(c.func).rsplit(".", 1)[0] for l in ast.walk(lf) if isinstance(l, ast.For) for c in P.calls(l)
+                          if P.un(c.func).endswith(".append") and c.args and isinstance(c.args[0], ast.Call) and P.un(c.args[0].func) == "ast.Assign"), None)
+        if stmts_var is None:
+            raise AnalysisError("_letfn_to_py_ast: the statement list the binding loop fills was not found")
+        per_iter = False
+        for i in ast.walk(lf):
+            if not (isinstance(i, ast.If) and "is_in_loop" in P.un(i.test)):
+                continue
+            defs = [c for s in i.body for c in P.calls(s) if P.un(c.func) in ("ast_FunctionDef", "ast.FunctionDef")]
+            holds = any(any(k.arg == "body" and stmts_var in P.names_read(k.value) for k in d.keywords) for d in defs)
+            returns = any(any(isinstance(x, ast.Call) and P.un(x.func) == "ast.Return" for x in ast.walk(d)) for d in defs)
+            assigned = any(isinstance(c, ast.Call) and P.un(c.func) == "ast.Assign" and any(k.arg == "value" and isinstance(k.value, ast.Call) and P.un(k.value.func) == "ast.Call" for k in c.keywords)
+                           for s in i.body for c in ast.walk(s))
+            per_iter = per_iter or (holds and returns and assigned)
+        ctx.ob("C01.R5", f"{GEN}::_letfn_to_py_ast::in a loop body the letfn functions close over variables of their own iteration", GEN, lf.lineno, per_iter,
+               "" if per_iter else "letfn* assigns its functions to variables of the enclosing Python function also inside a loop* body, where they are assigned again on every iteration: a function kept from an earlier iteration calls the sibling of the last one",
+               witness="(loop [i 0 acc []] (if (< i 3) (recur (inc i) (conj acc (letfn [(a [] (b)) (b [] i)] a))) (mapv #(%) acc))) => [2 2 2], the language prescribes [0 1 2]")
     ok = not same_frame or captures or factory
     ctx.ob("C01.R5", f"{GEN}::_loop_to_py_ast::loop locals rebound in one frame are visible to closures", GEN, lp.lineno, ok,
            "" if ok else "closures created in a loop body capture the loop variable, not its value: after recur they all see the last value",
@@ -444,6 +466,10 @@ def r11_every_top_level_form_yields_a_value(ctx):
 
 
 SELFTEST = [
+    {"name": "letfn functions of a loop body share the variables of all iterations (the repaired defect)", "file": GEN, "expect": "C01.R5",
+     "old": "        if ctx.is_in_loop and binding_names:\n", "new": "        if False and binding_names:\n"},
+    {"name": "twin: the letfn factory test written the other way round", "file": GEN, "expect": None,
+     "old": "        if ctx.is_in_loop and binding_names:\n", "new": "        if binding_names and ctx.is_in_loop:\n"},
     {"name": "fns created in a loop body are plain closures again (the repaired defect)", "file": GEN, "expect": "C01.R5",
      "old": "    if def_name is None and ctx.is_in_loop:\n        return __fn_closed_over_current_locals(ctx, fn_ast)\n", "new": ""},
     {"name": "the factory is called without the current values", "file": GEN, "expect": "C01.R5",
